@@ -7,6 +7,7 @@ CLAIMS = ("R1 in distance_column every kernel call (l2_sq/dot/norm on a row) is 
           "R2 a NULL vector row yields NULL (None) without calling a kernel, and every other row yields Some; "
           "R3 row slices are `flat[i*dim .. (i+1)*dim]` over the values buffer obtained through as_f32_vectors/as_f64_vectors from FixedSizeListArray::values() (offset-adjusted by Arrow), never a raw buffer with a hand-computed offset; "
           "R4 each DistanceKind arm uses its formula's kernels: L2 -> sqrt(l2_sq), Dot -> dot, Cosine family -> dot/(norm*norm) with the zero-denominator guard, and Cosine = 1 - similarity.")
+CLAIMS = CLAIMS + ("; R9 each kernel visits every element once: a slice obtained from chunks_exact(..).remainder() is traversed by exactly one consumer (one further chunks_exact, or one iter/zip) - a remainder traversed twice is summed twice.",)[0]
 NOT_DECIDED = "numeric values within tolerance; accumulation order inside the kernels."
 
 V = "physical::vector"
@@ -107,3 +108,49 @@ def run(F, R):
                     if "DistanceKind" in e and "Cosine" in e and "Similarity" not in e and val is True:
                         okc = True
         R.check(okc and len(subs) == 1, "C38.R4", f"{fname}:cosine=1-similarity", "`1 - similarity` is not applied exactly for DistanceKind::Cosine", f.loc(), dict(subs=len(subs)))
+    single_visit(F, R)
+
+def single_visit(F, R):
+    R.rule("C38.R9", "K2 use count", "a remainder() slice in a distance kernel has exactly one traversing consumer")
+    TRAV = ("chunks_exact", "chunks", "iter", "into_iter", "zip", "windows", "iter_mut")
+    n = 0
+    for g in F.in_file("src/physical/vector.rs"):
+        if F.bodies[g.path]["kind"] not in ("fn", "method"):
+            continue
+        rems = [c for c in g.calls() if c.name.rsplit("::", 1)[-1] == "remainder"]
+        for c in rems:
+            n += 1
+            seen, work, trav = set(), [place_local(c.dest)], []
+            while work:
+                l = work.pop()
+                if l in seen:
+                    continue
+                seen.add(l)
+                for u in uses_of_local(g, l):
+                    if u[0] == "stmt":
+                        dst, rv = u[2], u[3]
+                        if rv[0] in ("use", "ref", "cast") and "|" not in dst:
+                            work.append(place_local(dst))
+                        elif rv[0] == "agg" and rv[1] == "tuple" and "|" not in dst:
+                            # follow only the component this slice went into
+                            for k_, o_ in enumerate(rv[2]):
+                                q_ = op_place(o_) if not isinstance(o_, dict) else None
+                                if q_ and "|" not in q_ and place_local(q_) == l:
+                                    want = f"{dst}|f:{k_}:()"
+                                    for i2, j2, dst2, rv2, line2 in g.stmts():
+                                        if rv2[0] == "use" and not isinstance(rv2[1], dict) and op_place(rv2[1]) == want and "|" not in dst2:
+                                            work.append(place_local(dst2))
+                    elif u[0] == "call":
+                        last = u[1].name.rsplit("::", 1)[-1]
+                        if last in TRAV:
+                            trav.append((u[1].bb, last))
+                        elif last in ("deref", "as_ref", "borrow", "clone") and u[1].dest and "|" not in u[1].dest:
+                            work.append(place_local(u[1].dest))
+            trav = sorted(set(trav))
+            R.check(len(trav) <= 1, "C38.R9", f"{F.bodies[g.path]['name']}:remainder#{_rn(g, c)}:single-traversal", f"the tail slice left by chunks_exact is traversed {len(trav)} times ({[t for b_, t in trav]}): its elements enter the sum more than once, so the distance is wrong whenever the tail is non-empty (dimension not a multiple of the block)", g.loc(c.bb), dict(consumers=[t for b_, t in trav]))
+    R.floor("C38.R9", "remainder() slices in vector kernels", n, 4)
+
+
+def _rn(g, c):
+    same = sorted([x for x in g.calls() if x.name.rsplit("::", 1)[-1] == "remainder"], key=lambda x: (x.line, x.bb))
+    return same.index(c)
